@@ -6,6 +6,7 @@ import InfluxQL.Model.ParserCore
 import InfluxQL.Lemmas.RenderQuery
 import InfluxQL.Lemmas.RenderPrinted
 import InfluxQL.Lemmas.PrintedFamilies
+import InfluxQL.Lemmas.PrintedFamiliesT
 import InfluxQL.Props.C04
 /-!
 # C16 — statement separation, whitespace and comments do not change meaning
@@ -805,6 +806,142 @@ example : parseQueryText "DROP SERIES FROM cpu WHERE host = 'b'".toList [] [] =
   exact this
 
 end printedExamples
+
+/-! ## Printed queries, second part: the wide class, subqueries, EXPLAIN, CREATE CONTINUOUS QUERY -/
+
+/-- **`;` directly after a printed expression of the wide class.** As `parseExpr_before_semicolon_partial`,
+for C03's wide class relative to the lower-casing table of the state (`RT.wOK s.lowerTbl`): number and
+duration literals of either sign, wildcards, `DISTINCT x`, typed references `x::type` and calls (`mean(value)`,
+`now()`, `time(5m)`) — the steps of the call specification (`wspecA_step`, `wspecC_step`) restated for
+separators that may be a `;` (Lemmas/ExprSemiWide.lean). Partial: the class (excluded as in C03: call names
+that need quotes or are changed by the table, negated-operand trees, non-canonical decimals). -/
+theorem parseExpr_before_semicolon_wide_partial (F : Nat) (s : PState) (e : Expr) (t : Str)
+    (he : RT.wOK s.lowerTbl e = true) (hat : RT.AtW s (e.print ++ ';' :: t)) :
+    wp (parseExpr F) s (fun e' s' => e' = e ∧ RT.Stand s' (';' :: t) ∧ RT.Same s s') RT.IsFuel :=
+  C02.Semi.RT.parseExprW_semi F s e t he hat
+
+open PrintedQuery in
+/-- Obligation on the regenerated tables, as `gen_exprPaths`, for the keyword paths with EXPLAIN and CREATE
+CONTINUOUS QUERY added. -/
+theorem gen_exprPathsT : ∀ p ∈ exprPathsT,
+    (∀ t ∈ p.1, t.isKw = true) ∧ C01.dispatchPath 0 p.1 = some p.2 ∧ p.1.length ≤ Gen.dispatch.length + 1 ∧
+      (match p.1 with
+       | [] => false
+       | t :: _ => t != .EOF && t != .SEMICOLON) = true := PrintedQuery.gen_exprPathsT
+
+open PrintedQuery RenderPrinted in
+/-- **C16 (a) for printed queries, all instantiated kinds.** `qs` is any list of printed statements:
+`QStmtT.plain p` and `QStmtT.expr x` as in `parseQuery_printed_exprs_partial` (`QStmt.toT` embeds the older sum
+type), or `QStmtT.wide N x` with `x.OKT tbl N` — a family whose class is relative to the lower-casing table
+`tbl` shipped with the input:
+
+* `selectSubPS st`, `selOKB tbl n st` (`N = n + 3`): SELECT with fields / condition / dimensions of C03's wide
+  class (`mean(value)`, `time > now() - 1h`, numbers, durations, wildcards), `INTO`, qualified measurements and
+  **subqueries nested less than `n` deep** as sources, `GROUP BY` tags / `time(5m)` / `time(5m, 1m)` / `*`,
+  `fill(none|previous|linear|<integer>|<number>)`, `ORDER BY [time] ASC|DESC`, the four limits, `TZ('…')`;
+* `explainPS st analyze verbose`: `EXPLAIN [ANALYZE] [VERBOSE]` of such a SELECT;
+* `cqPS name db ev fo st`, `CQOK tbl n …`: `CREATE CONTINUOUS QUERY … ON … [RESAMPLE …] BEGIN SELECT … INTO … END`
+  (the statement ends in the keyword `END`; the `;` behind it only has to end a word).
+
+A raw text whose delivered form is `Statements.String()` of them parses with table `tbl` to exactly these
+statements, in order. The table is the same in front of every statement (frame property of `ScanIgnoreWhitespace`,
+the dispatch and the handlers of all these families; Lemmas/PrintedQueryT.lean).
+
+Partial: the classes (exclusions as in `C02.selectSub_print_parse_partial`, `explain_…`, `createContinuousQuery_…`),
+and `hfuel`: the expression fuel `parseQueryText` grants (`fuelFor text = 4·|text| + 100`) is at least `depth + 3` for
+every statement with subqueries — decidable, and true whenever the nesting is less than 98 deep. -/
+theorem parseQuery_printed_all_partial (qs : List QStmtT) (text : Str) (params : List (Str × BoundValue))
+    (tbl : List (Char × Char)) (hok : ∀ q ∈ qs, q.OK tbl) (hfuel : ∀ q ∈ qs, q.minFuel ≤ fuelFor text)
+    (hfold : foldCR text = printStatements (qs.map QStmtT.stmt)) :
+    parseQueryText text params tbl = .ok (qs.map QStmtT.stmt) :=
+  parseQueryText_printed_qstmtsT C04.gen_dispatch_depth qs text params tbl hok hfuel hfold
+
+open PrintedQuery RenderPrinted in
+/-- The same for nesting depths up to 97: no hypothesis on the fuel is left. -/
+theorem parseQuery_printed_all_shallow_partial (qs : List QStmtT) (text : Str) (params : List (Str × BoundValue))
+    (tbl : List (Char × Char)) (hok : ∀ q ∈ qs, q.OK tbl) (hdepth : ∀ q ∈ qs, q.minFuel ≤ 100)
+    (hfold : foldCR text = printStatements (qs.map QStmtT.stmt)) :
+    parseQueryText text params tbl = .ok (qs.map QStmtT.stmt) :=
+  parseQuery_printed_all_partial qs text params tbl hok
+    (fun q hq => Nat.le_trans (hdepth q hq) (by unfold fuelFor; omega)) hfold
+
+open PrintedQuery RenderPrinted in
+/-- **`ParseQuery(Statements.String())` = the statements**, all instantiated kinds, for the printed query itself
+(hypothesis: it contains no CR — decidable; see `parseQuery_printed_exprs_text_partial`). -/
+theorem parseQuery_printed_all_text_partial (qs : List QStmtT) (params : List (Str × BoundValue))
+    (tbl : List (Char × Char)) (hok : ∀ q ∈ qs, q.OK tbl) (hdepth : ∀ q ∈ qs, q.minFuel ≤ 100)
+    (hcr : ∀ c ∈ printStatements (qs.map QStmtT.stmt), c ≠ '\r') :
+    parseQueryText (printStatements (qs.map QStmtT.stmt)) params tbl = .ok (qs.map QStmtT.stmt) :=
+  parseQuery_printed_all_shallow_partial qs _ params tbl hok hdepth (foldCR_of_noCR _ hcr)
+
+section printedExamplesT
+open PrintedQuery RenderPrinted
+
+/-- `SELECT mean(value) FROM cpu WHERE time > now() - 1h GROUP BY time(5m) fill(none)`. -/
+def exSelWide : SelectStmt :=
+  wideSelect ⟨.call "mean".toList [.varRef "value".toList .Unknown], []⟩ [] none [qualSrc ([], [], "cpu".toList)]
+    (some (.binary .GT (.varRef "time".toList .Unknown) (.binary .SUB (.call "now".toList []) (.duration 3600000000000))))
+    [.call "time".toList [.duration 300000000000]] .none .none [] 0 0 0 0 none
+
+/-- `SELECT max(v) FROM (SELECT v FROM m)`. -/
+def exSelSub : SelectStmt :=
+  wideSelect ⟨.call "max".toList [.varRef ['v'] .Unknown], []⟩ [] none
+    [.subquery (wideSelect ⟨.varRef ['v'] .Unknown, []⟩ [] none [qualSrc ([], [], ['m'])] none [] .null .none [] 0 0 0 0 none)]
+    none [] .null .none [] 0 0 0 0 none
+
+def exQueryT : List QStmtT :=
+  [.wide 4 (selectSubPS exSelWide), .wide 5 (selectSubPS exSelSub),
+   .plain (.zeroArg ([.SHOW, .DATABASES], .parseShowDatabasesStatement, .showDatabases) (by simp [C01.zeroArgFamily]))]
+
+/-- Non-vacuity, through the theorem: the printed query
+`SELECT mean(value) FROM cpu WHERE time > now() - 1h GROUP BY time(5m) fill(none);⏎SELECT max(v) FROM (SELECT v FROM m);⏎SHOW DATABASES`
+parses to its three statements. -/
+example : printStatements (exQueryT.map QStmtT.stmt) =
+      ("SELECT mean(value) FROM cpu WHERE time > now() - 1h GROUP BY time(5m) fill(none);\n" ++
+        "SELECT max(v) FROM (SELECT v FROM m);\nSHOW DATABASES").toList ∧
+    parseQueryText
+      ("SELECT mean(value) FROM cpu WHERE time > now() - 1h GROUP BY time(5m) fill(none);\n" ++
+        "SELECT max(v) FROM (SELECT v FROM m);\nSHOW DATABASES").toList [] [] = .ok (exQueryT.map QStmtT.stmt) := by
+  refine ⟨by decide +kernel, ?_⟩
+  refine parseQuery_printed_all_shallow_partial exQueryT _ [] [] ?_ ?_ (by decide +kernel)
+  · intro q hq
+    simp only [exQueryT, List.mem_cons, List.not_mem_nil, or_false] at hq
+    rcases hq with rfl | rfl | rfl
+    · exact selectSubPS_ok [] 1 _ (by decide +kernel)
+    · exact selectSubPS_ok [] 2 _ (by decide +kernel)
+    · trivial
+  · intro q hq
+    simp only [exQueryT, List.mem_cons, List.not_mem_nil, or_false] at hq
+    rcases hq with rfl | rfl | rfl <;> decide
+
+/-- `EXPLAIN ANALYZE SELECT max(v) FROM (SELECT v FROM m);⏎CREATE CONTINUOUS QUERY cq ON db BEGIN SELECT mean(value)
+INTO tgt FROM cpu GROUP BY time(5m) END;⏎DELETE WHERE host = 'b'`: the other two new kinds followed by `;`. -/
+def exCQSelT : SelectStmt :=
+  wideSelect ⟨.call "mean".toList [.varRef "value".toList .Unknown], []⟩ [] (some ([], [], "tgt".toList))
+    [qualSrc ([], [], "cpu".toList)] none [.call "time".toList [.duration 300000000000]] .null .none [] 0 0 0 0 none
+
+def exQueryT2 : List QStmtT :=
+  [.wide 5 (explainPS exSelSub true false), .wide 4 (cqPS "cq".toList "db".toList 0 0 exCQSelT),
+   .expr (deletePS [] exCondB)]
+
+example : printStatements (exQueryT2.map QStmtT.stmt) =
+      ("EXPLAIN ANALYZE SELECT max(v) FROM (SELECT v FROM m);\n" ++
+        "CREATE CONTINUOUS QUERY cq ON db BEGIN SELECT mean(value) INTO tgt FROM cpu GROUP BY time(5m) END;\n" ++
+        "DELETE WHERE host = 'b'").toList ∧
+    parseQueryText (printStatements (exQueryT2.map QStmtT.stmt)) [] [] = .ok (exQueryT2.map QStmtT.stmt) := by
+  refine ⟨by decide +kernel, ?_⟩
+  refine parseQuery_printed_all_text_partial exQueryT2 [] [] ?_ ?_ (by decide +kernel)
+  · intro q hq
+    simp only [exQueryT2, List.mem_cons, List.not_mem_nil, or_false] at hq
+    rcases hq with rfl | rfl | rfl
+    · exact explainPS_ok [] 2 _ _ _ (by decide +kernel)
+    · exact cqPS_ok [] 1 _ _ _ _ _ (by decide +kernel)
+    · exact deletePS_ok _ _ (by decide +kernel)
+  · intro q hq
+    simp only [exQueryT2, List.mem_cons, List.not_mem_nil, or_false] at hq
+    rcases hq with rfl | rfl | rfl <;> decide
+
+end printedExamplesT
 
 /-! ## Negative examples: where the side conditions bite (kernel-checked) -/
 
